@@ -113,7 +113,7 @@ func runC20(c *ctx, r *Report) error {
 		nSan, nSets = 100000, 400
 	}
 	cpus := runtime.NumCPU()
-	r.Rule = fmt.Sprintf("(1) %d random scripts with placeholders (closed, unclosed, nested, adjacent, with line breaks and non-ASCII): real sanitizeExpressionsInScript (verif hook) vs model + length/outside-unchanged oracle; (2) %d workflow sets (1–4 files × 1–3 jobs × 0–5 run steps; shells at step / job / workflow / runner level, defaults.run sections with and without a shell; per-invocation tool behaviour drawn from ok, issue list, crash, kill -9, kill -9 after complete output, garbage, empty output; tool latency 0–40 ms; one set with > NumCPU slow invocations) linted by the real LintFiles with a stand-in tool that logs stdin and start/end times: every expected script arrives exactly once and byte-identical to setup + sanitize(script), ≤ NumCPU(=%d) overlapping tool processes, all processes ended before LintFiles returned, issues ↦ diagnostics at the run: key, failures ↦ fatal error; (3) the outcome table: both tools × output {none, 1 issue, 3 issues, garbage, cut off mid-issue} × termination {exit 0, 1, 3, SIGKILL, cannot be executed}, observed outcome vs the model's callback on the same stdout; the schedule points recorded by the verif hooks are replayed through the model's transition system (every transition must be enabled, permit invariant checked in every state); non-trivial = distinct scripts with a placeholder / workflow sets with ≥ 2 invocations", nSan, nSets, cpus)
+	r.Rule = fmt.Sprintf("(1) %d random scripts with placeholders (closed, unclosed, nested, adjacent, with line breaks and non-ASCII): real sanitizeExpressionsInScript (verif hook) vs model + length/outside-unchanged oracle; (2) %d workflow sets (1–4 files × 1–3 jobs × 0–5 run steps; shells at step / job / workflow / runner level, defaults.run sections with and without a shell; per-invocation tool behaviour drawn from ok, issue list, crash, kill -9, kill -9 after complete output, garbage, empty output; tool latency 0–40 ms; one set with > NumCPU slow invocations) linted by the real LintFiles with a stand-in tool that logs stdin and start/end times: which script goes to which tool is decided by the Lean model AL.ShellVisit (op shellvisit; AL.Props.C20Shell proves that it is the prescribed (step, job, workflow, runner) precedence for every workflow and visiting order): every such script arrives exactly once and byte-identical to setup + sanitize(script), ≤ NumCPU(=%d) overlapping tool processes, all processes ended before LintFiles returned, issues ↦ diagnostics at the run: key, failures ↦ fatal error; (3) the outcome table: both tools × output {none, 1 issue, 3 issues, garbage, cut off mid-issue} × termination {exit 0, 1, 3, SIGKILL, cannot be executed}, observed outcome vs the model's callback on the same stdout; the schedule points recorded by the verif hooks are replayed through the model's transition system (every transition must be enabled, permit invariant checked in every state); non-trivial = distinct scripts with a placeholder / workflow sets with ≥ 2 invocations", nSan, nSets, cpus)
 	var b batch
 
 	// (1) sanitize
@@ -234,6 +234,61 @@ func runC20(c *ctx, r *Report) error {
 			runPos string
 		}
 		var expects []expect
+		// the decisions of the proved model (AL.ShellVisit, theorems AL.Props.C20Shell): per file, per job, per step the
+		// shell handed to shellcheck and whether pyflakes gets the script
+		var svLines []string
+		for _, f := range files {
+			optS := func(v string) string {
+				if v == "" {
+					return "N"
+				}
+				return hx(v)
+			}
+			var js []string
+			for _, j := range f.jobs {
+				var ss []string
+				for _, st := range j.steps {
+					ss = append(ss, fmt.Sprintf("(%s,1)", optS(st.shell)))
+				}
+				label := "ubuntu-latest"
+				if j.windows {
+					label = "windows-latest"
+				}
+				h := 0
+				if j.defShell != "" || j.defWD {
+					h = 1
+				}
+				stepsS := "E"
+				if len(ss) > 0 {
+					stepsS = sexpList(ss)
+				}
+				js = append(js, fmt.Sprintf("(%d,%s,(%s),%s)", h, optS(j.defShell), hx(label), stepsS))
+			}
+			h := 0
+			if f.defShell != "" || f.defWD {
+				h = 1
+			}
+			svLines = append(svLines, fmt.Sprintf("shellvisit (%d,%s,%s)", h, optS(f.defShell), sexpList(js)))
+		}
+		svOut, err := runModel(c.driver, svLines)
+		if err != nil {
+			return err
+		}
+		modelDecision := func(fi, ji, si int) (string, bool) {
+			jobs := strings.Split(svOut[fi], ";")
+			if ji >= len(jobs) {
+				return "?", false
+			}
+			steps := strings.Split(jobs[ji], ",")
+			if si >= len(steps) {
+				return "?", false
+			}
+			p := strings.SplitN(steps[si], "/", 2)
+			if len(p) != 2 {
+				return "?", false
+			}
+			return p[0], p[1] == "1"
+		}
 		for fi, f := range files {
 			p := filepath.Join(dir, fmt.Sprintf("w%d.yml", fi))
 			src := f.yaml(fi)
@@ -251,6 +306,38 @@ func runC20(c *ctx, r *Report) error {
 						sh = "bash"
 					case strings.HasPrefix(eff, "sh "):
 						sh = "sh"
+					}
+					// the model decides; the harness's own derivation above is only a cross-check of the encoding
+					mSh, mPy := modelDecision(fi, ji, si)
+					goSh := sh
+					if goSh == "" {
+						goSh = "-"
+					}
+					goPy := func() bool {
+						pk := func(v string) int {
+							if v == "" {
+								return 0
+							}
+							if v == "python" || strings.HasPrefix(v, "python ") {
+								return 1
+							}
+							return 2
+						}
+						switch {
+						case pk(s.shell) != 0:
+							return pk(s.shell) == 1
+						case pk(j.defShell) != 0:
+							return pk(j.defShell) == 1
+						default:
+							return pk(f.defShell) == 1
+						}
+					}()
+					if mSh != goSh || mPy != goPy {
+						r.disagree(Case{Op: "shellvisit", Input: map[string]string{"workflow": f.yaml(fi), "step": fmt.Sprintf("f%dj%ds%d", fi, ji, si)}, Impl: fmt.Sprintf("%s/%v (harness derivation)", goSh, goPy), Model: fmt.Sprintf("%s/%v", mSh, mPy)})
+					}
+					sh = mSh
+					if sh == "-" {
+						sh = ""
 					}
 					if sh != "" {
 						setup := "set -e"
@@ -278,6 +365,7 @@ func runC20(c *ctx, r *Report) error {
 					default:
 						py = pk(f.defShell) == 1
 					}
+					py = mPy
 					if py {
 						expects = append(expects, expect{"pyflakes", actionlint.VerifSanitizeExpressionsInScript(script), s.directive, ""})
 					}
